@@ -33,7 +33,12 @@ async def party_main(world, p, prog, case):
             return T(float(Fr(v[0], v[1])))
         return T(v)
     x = [mk(T0, prog['steps'][0], v) for v in vals]
-    x = rt.input(x, senders=s)
+    if prog.get('separate'):
+        # every element is its own input: a fixed-point list whose elements carry DIFFERENT integrality flags
+        # (input of a list gives all elements the same flag)
+        x = [rt.input(a, senders=s) for a in x]
+    else:
+        x = rt.input(x, senders=s)
     outs = [await rt.output(x)]
     cur = x[0] if as_scalar else x
     for td in prog['steps'][1:]:
@@ -185,8 +190,13 @@ def gen(rng, cfg, tier='quick'):
             integral = all(v.denominator == 1 for v in vals)
             if integral:
                 dummy = [[1, 1] for _ in vals]
+        separate = False
+        if steps[0]['kind'] == 'fxp' and len(vals) >= 2 and rng.random() < 0.5:
+            # separately input elements: per-element integrality flags, equal at all parties
+            separate = True
+            dummy = [[1, 1] if v.denominator == 1 else [1, 2] for v in vals]
         return {'family': NAME, 'steps': steps, 'values': enc, 'dummy': dummy, 'sender': rng.randrange(cfg.m),
-                'scalar': rng.random() < 0.3, 'scramble': rng.random() < 0.3}
+                'scalar': rng.random() < 0.3, 'scramble': rng.random() < 0.3, 'separate': separate}
     return {'family': NAME, 'steps': [{'kind': 'int', 'l': 16}, {'kind': 'int', 'l': 32}], 'values': [5], 'dummy': [0],
             'sender': 0, 'scalar': False}
 
